@@ -178,7 +178,8 @@ let gen_history ?(cfgstr : string option) (idx : int) (prof : profile) (oc : out
       | 7 -> (match nmap_to_list !s.gw_registered with [] -> pick names | l -> let (_, nm) = pick l in String.concat "" (List.map (fun x -> String.make 1 (Char.chr (int_of_n x))) nm))
       | _ -> "new/" ^ string_of_int (rnd (if prof.p_exhaust then 40 else 4)) in
     (* a conforming broker never uses packet identifier 0 *)
-    let mid = if qos = 0 then 0 else if rnd 4 = 0 then max 1 (some_mid ()) else fresh_mid () in
+    (* one in six: a packet identifier that equals a topic ID in use (the two number spaces both start at 1) *)
+    let mid = if qos = 0 then 0 else (match rnd 12 with 0 | 1 | 2 -> max 1 (some_mid ()) | 3 | 4 -> max 1 (some_tid ()) | _ -> fresh_mid ()) in
     MqPublish (rnd 8 = 0, nn qos, coin (), bs topic, nn mid, payload ()) in
   let malformed () : n list =
     match rnd 6 with
@@ -217,11 +218,11 @@ let gen_history ?(cfgstr : string option) (idx : int) (prof : profile) (oc : out
                 (3, `BrokerStuff); (5, `Adv); (2, `Disconnect0); (prof.p_malformed, `Malformed); (2, `Terminal) ]
       else if asleep then
         pickw [ (25, `Pingreq); (25, `BrokerPublish); (8, `Adv); (8, `BigAdv); (5, `Connect); (5, `Disconnect0); (5, `Sleep);
-                (5, `ClientAck); (4, `BrokerStuff); (3, `ClientPublish); (3, `Terminal); (2, `Register) ]
+                (5, `ClientAck); (4, `BrokerStuff); (3, `ClientPublish); (3, `Terminal); (2, `Register); (6, `Progress) ]
       else
         pickw [ (14, `Register); (16, `ClientPublish); (12, `Subscribe); (5, `Unsubscribe); (prof.p_broker_pub, `BrokerPublish);
                 (14, `ClientAck); (12, `BrokerStuff); (4, `Pingreq); (4, `Pubrel); (prof.p_sleep, `Sleep); (3, `Disconnect0);
-                (3, `Connect); (6, `Adv); (4, `TimerEdge); (2, `Auth); (1, `WillTopic); (1, `WillMsg); (3, `Terminal);
+                (3, `Connect); (6, `Adv); (4, `TimerEdge); (4, `Cross); (16, `Progress); (6, `Flow2); (2, `Auth); (1, `WillTopic); (1, `WillMsg); (3, `Terminal);
                 (prof.p_malformed, `Malformed); (1, `OtherKind) ] in
     match choice with
     | `Connect -> emit_or_skip (ev_sn (connect_pkt ()))
@@ -269,6 +270,67 @@ let gen_history ?(cfgstr : string option) (idx : int) (prof : profile) (oc : out
                                    (1, MqSuback (nn mid, [])); (2, MqUnsuback (nn mid)); (2, MqPingresp); (2, MqPubrel (nn mid));
                                    (1, MqConnack (false, nn 0)) ]))
     | `BrokerPublish -> emit_or_skip (ev_mq (broker_publish ()))
+    | `Progress ->
+      (* the packet one of the exchanges in progress is waiting for (sometimes twice: a duplicated datagram) *)
+      (match List.filter (fun (_, t) -> match t with TxConnect _ -> false | _ -> true) (nmap_to_list !s.gw_objs) with
+       | [] -> emit_or_skip (ev_mq (broker_publish ()))
+       | l ->
+         let (_, t) = pick l in
+         let stale = rnd 5 = 0 in
+         let next = (match t with
+             (* a datagram of the previous step of the exchange arrives again, late *)
+             | TxBrokerPub (mid, _, AwaitPubcomp, _, _, _) when stale -> Some (ev_sn (Pubrec mid))
+             | TxBrokerPub (mid, q, (AwaitPuback | AwaitPubrec), _, Some (Publish (_, _, _, _, tid, _, _)), _) when stale && int_of_n q > 0 ->
+               Some (ev_sn (Regack (tid, mid, nn 0)))
+             | TxBrokerPub (mid, _, st, data, snpub, _) ->
+               (match st, data, snpub with
+                | AwaitRegack, RsSn (Register (tid, m, _)), _ -> Some (ev_sn (Regack (tid, m, nn 0)))
+                | AwaitPuback, _, Some (Publish (_, _, _, _, tid, _, _)) -> Some (ev_sn (Puback (tid, mid, nn 0)))
+                | AwaitPubrec, _, _ -> Some (ev_sn (Pubrec mid))
+                | AwaitPubrel, _, _ -> Some (ev_mq (MqPubrel mid))
+                | AwaitPubcomp, _, _ -> Some (ev_sn (Pubcomp mid))
+                | _ -> None)
+             | TxClientPub1 (mid, _) -> Some (ev_mq (MqPuback mid))
+             | TxSubscribe (mid, _) -> Some (ev_mq (MqSuback (mid, [nn (rnd 3)])))
+             | TxConnect _ -> None) in
+         (match next with
+          | Some e -> emit_or_skip e; if rnd 6 = 0 then (if rnd 2 = 0 then adv_safe (1 + rnd 40); if !s.gw_ending = None && not !s.gw_ended then emit_or_skip e)
+          | None -> ()))
+    | `Flow2 ->
+      (* C16: a whole QoS 2 flow of a broker message, every datagram of the client possibly duplicated
+         with the copy arriving one step late *)
+      let alive () = !s.gw_ending = None && not !s.gw_ended && !s.gw_st = Active in
+      let mid = fresh_mid () in
+      let late () = if rnd 3 = 0 then adv_safe (1 + rnd 40) in
+      emit_or_skip (ev_mq (MqPublish (false, nn 2, coin (), bs (pick shorts), nn mid, payload ())));
+      late ();
+      if alive () then emit_or_skip (ev_sn (Pubrec (nn mid)));
+      late ();
+      if alive () && rnd 8 > 0 then emit_or_skip (ev_mq (MqPubrel (nn mid)));
+      if alive () && rnd 3 = 0 then emit_or_skip (ev_sn (Pubrec (nn mid)));        (* the copy of the PUBREC *)
+      late ();
+      if alive () then emit_or_skip (ev_sn (Pubcomp (nn mid)));
+      if alive () && rnd 4 = 0 then emit_or_skip (ev_sn (Pubcomp (nn mid)))
+    | `Cross ->
+      (* C06: an exchange of each direction, the two interleaved, where the broker's packet identifier equals
+         the topic ID the client publishes on (the number spaces both start at 1) or the client's message ID *)
+      (match nmap_to_list !s.gw_registered with
+       | [] -> ()
+       | l ->
+         let (tid, nm) = pick l in
+         let tid = int_of_n tid in
+         let cm = if rnd 3 = 0 then tid else fresh_mid () in
+         let q = 1 + rnd 2 in
+         let alive () = !s.gw_ending = None && not !s.gw_ended in
+         emit_or_skip (ev_mq (MqPublish (false, nn q, false, nm, nn tid, payload ())));
+         if rnd 4 = 0 then adv_safe (1 + rnd 30);
+         if alive () then emit_or_skip (ev_sn (Publish (false, nn 1, false, nn 0, nn tid, nn cm, payload ())));
+         if alive () then
+           (match rnd 4 with
+            | 0 -> adv_safe (rdelay + 3)                                   (* the client's exchange times out / is retried *)
+            | _ -> emit_or_skip (ev_mq (MqPuback (nn cm))));
+         if rnd 4 = 0 then adv_safe (1 + rnd 30);
+         if alive () then emit_or_skip (ev_sn (if q = 1 then Puback (nn tid, nn tid, nn 0) else Pubrec (nn tid))))
     | `Adv -> adv_safe (pickw [ (3, 1 + rnd 90); (3, rdelay - 1); (3, rdelay + 1); (2, 2 * rdelay + 3); (1, 5003) ])
     | `BigAdv -> adv_safe (1000 * (1 + rnd 12) + 1 + rnd 7)
     | `TimerEdge ->
